@@ -2,6 +2,9 @@
 with the model), the rule that makes a case non-trivial, assumptions (DESIGN §2.2, §6)."""
 
 ENGINES = {
+    "json": {"shards_thorough": 14},
+    "snap": {"shards_thorough": 14},
+    "snapx": {"shards_thorough": 1},
     "codec": {"shards_thorough": 14},
     "conc": {"shards_thorough": 14},
     "concx": {"shards_thorough": 14},
@@ -156,6 +159,32 @@ PROPS = {
                 "empty and multi-element lists); the printed text compared byte for byte with the model's, the parse of that text compared with "
                 "the model's parse and judged equal to the value (C16); non-trivial = a parse that succeeded; distinct = distinct value text",
         "assumptions": ["listings (queue, level) are compared as sets ordered by (timestamp, id); generated queues/levels use distinct timestamps"],
+    },
+    "C17": {
+        "engines": ["json"],
+        "footprint": {"json": "*", "jparsed": "*"},
+        "nontrivial": r"^jparsed ok ",
+        "rule": "E-json: for each of the 12 serde types (order, update, id, side, tif, peg, transaction, match result, statistics, snapshot, "
+                "level data, snapshot package) 300 (thorough 3000 per shard) type-directed values with the boundary numbers of C16 (2^53+1, u64::MAX, "
+                "i64::MIN/MAX, GTD at the limits, absent replenish amount, nil/max/random UUID and ULID, empty and multi-element lists, wrong-version / "
+                "wrong-checksum packages); serde_json::to_string compared byte for byte with the model's rendering of the model's tree, "
+                "serde_json::from_str of that text compared with the model's decoder and judged equal to the value (C17); packages re-validated after the trip; "
+                "non-trivial = a decode that succeeded; distinct = distinct JSON text",
+        "assumptions": ["serde_json's text layer is modelled (render / parseJson) and compared on every case, not proved"],
+    },
+    "C09": {
+        "engines": ["snap", "json"],
+        "thorough_engines": ["snap", "snapx", "json"],
+        "footprint": {"pkg": "*", "restored": "*", "json": "*", "jparsed": "*"},
+        "nontrivial": r"^restored ",
+        "rule": "E-snap: 3 (thorough 6 per shard) levels of 0-6 orders over all seven kinds, both id formats and boundary values; for the serialized package of each: "
+                "EVERY truncation point, every single-byte deletion, 1500 (thorough 20000) substitutions and as many insertions at random offsets (structural "
+                "characters, digits, hex letters, random bytes), the structural edits swap / drop / duplicate an order, edit a number / the price / an aggregate, "
+                "unknown field, replaced key, version 0..4, one checksum character, and pairs of substitutions; thorough adds E-snapx: all 128 byte values at every offset of one package. "
+                "The crate's checksum is compared with the model's SHA-256; each restore outcome is compared with the model's and judged by the decision theorem's predicate "
+                "(accepted => supported version, checksum = SHA-256 of the content, restored content = packaged content = snapshotted content); "
+                "non-trivial = a damaged text that reached the restore (distinct = distinct fault)",
+        "assumptions": ["SHA-256 collision resistance (the property's own assumption); serde_json's reader modelled and compared, not proved"],
     },
     "C18": {
         "engines": ["codec"],
